@@ -235,6 +235,11 @@ func TestVerifC05(t *testing.T) {
 		c.Begin(map[string]interface{}{"offset": fmt.Sprintf("%#x", offset), "sections": len(secs), "reservations": len(reserved), "fail_alloc_at": failAt})
 		m.failAt = failAt
 		m.allocN = 0
+		if failAt == 0 && r.Chance(1, 40) {
+			// the first frame Init asks for - the new top-level table - is physical frame 0
+			m.zeroNext = true
+			run.Count("kernel_page_directory_in_physical_frame_0", 1)
+		}
 		var ierr interface{}
 		pv, stack := vlib.Protect(func() {
 			if e := Init(uintptr(offset)); e != nil {
